@@ -1,5 +1,6 @@
 import Hoot.Model.Uri
 import Hoot.Props.C09
+import Hoot.Proofs.HeadersMap
 
 /-! # C13 — redirects never leak credentials or stale framing to the next request
 
@@ -43,6 +44,45 @@ theorem C13 (prev : AReq) (nm : Method) (uri : Uri) (sameHost : Bool) (h : Hdr)
     · exact (keepAuthHeader_iff _ _ _).mp hk
     · simp [hk] at hf
 
+/-- **C13 (as seen through `headers_map()`).** The accessor on a flow created for a redirect — after any
+    caller additions `adds` in its prepare state — analyses the request and returns one entry per name.
+    Every entry is either one of the new request's own headers (added by the caller for the target, or the
+    `Host` / framing header request analysis derives for THIS request), or an inherited header, and then it
+    is under C13's rule: not `cookie`, not `content-length`, `authorization` only under the policy. -/
+theorem C13_headers_map (prev : AReq) (nm : Method) (uri : Uri) (sameHost : Bool) (c c1 : CallSt) (m : List Hdr)
+    (horig : c.req.orig = prev.orig) (hunset : c.req.unset = (followFlow prev nm uri sameHost).call.req.unset)
+    (hm : c.headersMap = (c1, .ok m)) (h : Hdr) (hin : h ∈ m) :
+    h ∈ c1.req.added ∨
+    (h ∈ prev.orig ∧ h.name ≠ "cookie" ∧ h.name ≠ "content-length" ∧
+      (h.name = "authorization" → sameHost = true ∧ prev.uri.host = uri.host ∧ (prev.uri.scheme = uri.scheme ∨ uri.scheme = "https"))) := by
+  obtain ⟨hc1, rfl⟩ := headersMap_ok hm
+  obtain ⟨extra, _, ho, hu, _⟩ := analyzeRequest_extra c
+  have hh := headersMapOf_sub hin
+  unfold AReq.headers at hh
+  rw [List.mem_append] at hh
+  rcases hh with hh | hh
+  · left; rw [hc1]; exact hh
+  · right
+    rw [ho, hu, horig, hunset, List.mem_filter] at hh
+    have hx : h ∈ (followFlow prev nm uri sameHost).call.req.headers := by
+      unfold AReq.headers
+      have e1 : (followFlow prev nm uri sameHost).call.req.orig = prev.orig := (C13_chain prev nm uri sameHost).2.1
+      rw [List.mem_append]; right
+      rw [e1, List.mem_filter]; exact hh
+    exact ⟨hh.1, C13 prev nm uri sameHost h hx⟩
+
+/-- … and an entry named `cookie` or `authorization` outside the policy, or `content-length`, is therefore
+    one the caller attached to the new request or the new request's own framing. -/
+theorem C13_headers_map_cookie (prev : AReq) (nm : Method) (uri : Uri) (sameHost : Bool) (c c1 : CallSt) (m : List Hdr)
+    (horig : c.req.orig = prev.orig) (hunset : c.req.unset = (followFlow prev nm uri sameHost).call.req.unset)
+    (hm : c.headersMap = (c1, .ok m)) (h : Hdr) (hin : h ∈ m) (hn : h.name = "cookie" ∨ h.name = "content-length") :
+    h ∈ c1.req.added := by
+  rcases C13_headers_map prev nm uri sameHost c c1 m horig hunset hm h hin with hh | ⟨_, h1, h2, _⟩
+  · exact hh
+  · rcases hn with e | e
+    · exact absurd e h1
+    · exact absurd e h2
+
 /-- the suppression list never exceeds its four slots (authorization, host, cookie, content-length) -/
 theorem C13_cap (b c : Bool) : (unsetList b c).length ≤ 4 := by cases b <;> cases c <;> simp [unsetList]
 
@@ -55,3 +95,19 @@ theorem C13_asNewFlow (f : Flow) (sameHost : Bool) (nf : Flow) (h : (f.asNewFlow
 
 example : keepAuthHeader true { scheme := "http", host := "a", port := none, path := "/", query := none }
     { scheme := "https", host := "a", port := none, path := "/x", query := none } = true := by decide
+
+-- the hypotheses of `C13_headers_map` are met by a concrete redirect (a test: string order does not reduce
+-- in the kernel): cross-host hop, caller attaches a cookie for the target; the map shows the caller's cookie,
+-- the derived host, the inherited `x-a`, and neither the inherited cookie nor the authorization
+def c13MapExample : Bool :=
+  let u0 : Uri := { scheme := "http", host := "a", port := none, path := "/", query := none }
+  let u1 : Uri := { scheme := "http", host := "b", port := none, path := "/x", query := none }
+  let hs : List Hdr := [{ name := "cookie", value := [49] }, { name := "authorization", value := [50] }, { name := "x-a", value := [51] }]
+  let prev : AReq := { method := .get, version := .h11, uri := u0, orig := hs }
+  let nf := followFlow prev .get u1 true
+  let r1 : AReq := { nf.call.req with added := [{ name := "cookie", value := [52] }] }
+  let c : CallSt := { nf.call with req := r1 }
+  match c.headersMap with
+  | (_, .ok m) => m == [{ name := "cookie", value := [52] }, { name := "host", value := [98] }, { name := "x-a", value := [51] }]
+  | _ => false
+#guard c13MapExample
